@@ -39,6 +39,9 @@ func NewInterp(w *World, p *Prog) *Interp {
 		}
 	}
 	in.buildAll(p.Body)
+	for _, c := range p.Customs {
+		in.buildAll(c.Body)
+	}
 	return in
 }
 
